@@ -12,7 +12,8 @@ concatenates in column order; F4 a character occupies max(1, width) columns: the
 1..width pushing NUL, and the escaping table drops NUL.  Not decided: which runs end up merged
 into one element for arbitrary layouts (span grouping).  F5 every place that measures text in columns
 uses the same per-character function as the row expansion (UnicodeWidthChar::width, max(1, .));
-no other width function (width_cjk, string widths) is used on the conversion path."""
+no other width function (width_cjk, string widths) is used on the conversion path.  F6 the characters of a
+text run are written only by the constructor (runs are joined only by CellText::merge under can_merge)."""
 import re
 
 from ..common import guards, lib_reachable, short, where
@@ -376,6 +377,25 @@ def run(run):
             run.ok("C04.F4", "every character is pushed once, followed by NUL fillers for columns 1..width", where(rng[0]))
         else:
             run.bad("C04.F4", "filler-loop", where(prog.bodies[sb]), "StringBuffer::from: filler range 1..width=%s, NUL pushes=%d, char pushes=%d" % (ok, len(nul), len(chp)))
+    # ---------------- F6 who may change the characters of a text run
+    from ..sinks import SinkAnalysis
+    CT = "svgbob::buffer::fragment_buffer::fragment::text::CellText"
+    if CT not in prog.adts:
+        run.missing("C04.F6", "CellText")
+    else:
+        sa = SinkAnalysis(run, "C04")
+        ALLOWED = {"CellText::new": "the constructor", "CellText::absolute_position": "struct update from self (content untouched, F3)",
+                   "<CellText as Clone>::clone": "derive(Clone)"}
+        writers = sa.field_sources(CT, "content")
+        for p_, e_, w_ in writers:
+            sp = short(p_)
+            if sp in ALLOWED:
+                run.ok("C04.F6", "CellText.content is written by %s" % sp, w_, ALLOWED[sp], nontrivial=False)
+            else:
+                run.bad("C04.F6", "text-content-writer/%s" % sp, w_,
+                        "%s changes the characters of a text run (`%s`): runs are only built by CellText::new and joined by CellText::merge under can_merge (same row, adjacent columns); "
+                        "any other writer can glue, drop or reorder characters" % (sp, expr_str(e_)[:100]))
+        run.floor("C04.F6", "content_writers", len(writers), 3)
     # ---------------- F5 one notion of "columns of a character" everywhere
     roots5, reach5 = lib_reachable(run, "C04.F5")
     sites = []
